@@ -1,3 +1,285 @@
-//! generator for c08 artefacts (filled in later)
-use super::Fix;
-pub fn generate(_fix: &Fix, _tier: &str, _seed: u64, _out_dir: &str) {}
+//! C08 generator: runs the REAL policy compiler natively on enumerated concrete policies and
+//! emits the compiled miniscripts' artefacts (script, witness tables, ...) together with the
+//! INPUT policy in array form; the harness decides that the output means what the input says.
+use std::fmt::Write as _;
+use std::str::FromStr;
+
+use miniscript::policy::Concrete;
+use miniscript::{BareCtx, Descriptor, Legacy, Miniscript, Segwitv0, Tap};
+
+use super::c18::P;
+use super::{emit_shape, hash_str, json_escape, shape_from_ms, write_out, CtxInfo, Fix, GShape, Pk, PALETTES, PRELUDE};
+use crate::shape::{P_AFTER, P_HASH, P_KEY, P_OLDER, P_THRESH, P_TRIVIAL, P_UNSAT};
+
+fn policy_lock_array(p: &P, out: &mut Vec<(u8, u8, u8, u8, u32)>) {
+    match p {
+        P::U => out.push((P_UNSAT, 0, 0, 0, 0)),
+        P::T => out.push((P_TRIVIAL, 0, 0, 0, 0)),
+        P::K(i) => out.push((P_KEY, *i, 0, 0, 0)),
+        P::H(j) => out.push((P_HASH, *j, 0, 0, 0)),
+        P::A(v) => out.push((P_AFTER, 0, 0, 0, *v)),
+        P::O(v) => out.push((P_OLDER, 0, 0, 0, *v)),
+        P::Th(k, v) => {
+            for c in v {
+                policy_lock_array(c, out);
+            }
+            out.push((P_THRESH, 0, *k, v.len() as u8, 0));
+        }
+    }
+}
+
+fn atoms(p: &P, keys: &mut Vec<u8>, hashes: &mut Vec<u8>, abs: &mut Vec<u32>, rel: &mut Vec<u32>) {
+    match p {
+        P::K(i) => {
+            if !keys.contains(i) {
+                keys.push(*i)
+            }
+        }
+        P::H(j) => {
+            if !hashes.contains(j) {
+                hashes.push(*j)
+            }
+        }
+        P::A(v) => {
+            if !abs.contains(v) {
+                abs.push(*v)
+            }
+        }
+        P::O(v) => {
+            if !rel.contains(v) {
+                rel.push(*v)
+            }
+        }
+        P::Th(_, v) => v.iter().for_each(|c| atoms(c, keys, hashes, abs, rel)),
+        _ => {}
+    }
+}
+
+fn show(p: &P) -> String {
+    match p {
+        P::U => "UNSATISFIABLE".into(),
+        P::T => "TRIVIAL".into(),
+        P::K(i) => format!("pk(K{i})"),
+        P::A(v) => format!("after({v})"),
+        P::O(v) => format!("older({v})"),
+        P::H(j) => format!("sha256(H{j})"),
+        P::Th(k, v) if v.len() == 2 && *k == 2 => format!("and({},{})", show(&v[0]), show(&v[1])),
+        P::Th(k, v) if v.len() == 2 && *k == 1 => format!("or(1@{},2@{})", show(&v[0]), show(&v[1])),
+        P::Th(k, v) => format!("thresh({},{})", k, v.iter().map(show).collect::<Vec<_>>().join(",")),
+    }
+}
+
+fn enumerate(tier: &str, seed: u64) -> Vec<P> {
+    let leaves = vec![P::K(0), P::K(1), P::K(2), P::K(3), P::H(0), P::H(1), P::O(10), P::O(0x40_0000 | 10), P::A(100), P::A(500_000_100)];
+    let mut out: Vec<P> = vec![P::K(0)];
+    let distinct = |p: &P| {
+        let (mut k, mut h, mut a, mut r) = (vec![], vec![], vec![], vec![]);
+        atoms(p, &mut k, &mut h, &mut a, &mut r);
+        fn count(p: &P) -> usize {
+            match p {
+                P::Th(_, v) => v.iter().map(count).sum(),
+                P::U | P::T => 0,
+                _ => 1,
+            }
+        }
+        count(p) == k.len() + h.len() + a.len() + r.len() && a.len() <= 2 && r.len() <= 2 && h.len() <= 2
+    };
+    let mut l1 = vec![];
+    for a in &leaves {
+        for b in &leaves {
+            for k in 1..=2u8 {
+                l1.push(P::Th(k, vec![a.clone(), b.clone()]));
+            }
+        }
+    }
+    for a in &leaves[..6] {
+        for b in &leaves[..7] {
+            for c in &leaves {
+                for k in 1..=3u8 {
+                    l1.push(P::Th(k, vec![a.clone(), b.clone(), c.clone()]));
+                }
+            }
+        }
+    }
+    l1.retain(distinct);
+    let mut l2 = vec![];
+    for a in l1.iter().filter(|p| hash_str(&show(p), 5) % 3 == 0) {
+        for b in &leaves {
+            for k in 1..=2u8 {
+                l2.push(P::Th(k, vec![a.clone(), b.clone()]));
+                l2.push(P::Th(k, vec![b.clone(), a.clone()]));
+            }
+        }
+    }
+    for (i, a) in l1.iter().enumerate().filter(|(_, p)| matches!(p, P::Th(_, v) if v.len() == 2)) {
+        for b in l1.iter().skip(i % 5).step_by(17).filter(|p| matches!(p, P::Th(_, v) if v.len() == 2)) {
+            for k in 1..=2u8 {
+                l2.push(P::Th(k, vec![a.clone(), b.clone()]));
+            }
+        }
+    }
+    l2.retain(distinct);
+    let th = tier == "thorough";
+    let s1 = if th { seed + 41 } else { 41 };
+    l1.sort_by_key(|p| hash_str(&show(p), s1));
+    l1.truncate(if th { 1200 } else { 140 });
+    l2.sort_by_key(|p| hash_str(&show(p), s1 + 1));
+    l2.truncate(if th { 1500 } else { 160 });
+    out.extend(l1);
+    out.extend(l2);
+    out
+}
+
+struct Out {
+    name: String,
+    ctx_name: &'static str,
+    g: GShape,
+}
+
+fn compile_ctx<Ctx: CtxInfo>(fix: &Fix, p: &P, conc: &Concrete<Pk>, ctx_name: &'static str, outs: &mut Vec<Out>, refused: &mut usize, findings: &mut Vec<String>)
+where
+    Miniscript<Pk, Ctx>: FromStr,
+{
+    let ms: Miniscript<Pk, Ctx> = match conc.compile::<Ctx>() {
+        Ok(ms) => ms,
+        Err(_) => {
+            *refused += 1;
+            return;
+        }
+    };
+    let (mut k, mut h, mut a, mut r) = (vec![], vec![], vec![], vec![]);
+    atoms(p, &mut k, &mut h, &mut a, &mut r);
+    let nkeys = k.iter().max().map(|m| *m as usize + 1).unwrap_or(0);
+    let nh = h.iter().max().map(|m| *m as usize + 1).unwrap_or(0);
+    let hashkinds = vec![crate::vm::H_SHA256; nh];
+    let mut g = match shape_from_ms::<Ctx>(fix, &ms, nkeys, &hashkinds, a, r, PALETTES[0], true) {
+        Ok(g) => g,
+        Err(e) => {
+            findings.push(format!("compile::<{}>({}) = {}: artefacts cannot be built: {}", ctx_name, show(p), ms, e));
+            return;
+        }
+    };
+    // the INPUT policy replaces the lifted one
+    g.policy.clear();
+    policy_lock_array(p, &mut g.policy);
+    g.liftable = true;
+    // re-parse from its own string under the default sanity rules (native)
+    let s = ms.to_string();
+    match Miniscript::<Pk, Ctx>::from_str(&s) {
+        Ok(m2) if m2 == ms => {}
+        Ok(_) => findings.push(format!("compile::<{}>({}) = {}: re-parses to a different miniscript", ctx_name, show(p), s)),
+        Err(_) => findings.push(format!("compile::<{}>({}) = {}: does not re-parse under the default sanity rules", ctx_name, show(p), s)),
+    }
+    outs.push(Out { name: format!("{} --{}--> {}", show(p), ctx_name, s), ctx_name, g });
+}
+
+pub fn generate(fix: &Fix, tier: &str, seed: u64, out_dir: &str) {
+    let pols = enumerate(tier, seed);
+    let mut outs: Vec<Out> = vec![];
+    let mut refused = 0usize;
+    let mut findings: Vec<String> = vec![];
+    let mut tr_cases: Vec<(String, i32, Vec<usize>)> = vec![];
+    for p in &pols {
+        let conc = match p.to_concrete(fix) {
+            Some(c) => c,
+            None => continue,
+        };
+        compile_ctx::<Segwitv0>(fix, p, &conc, "Segwitv0", &mut outs, &mut refused, &mut findings);
+        compile_ctx::<Tap>(fix, p, &conc, "Tap", &mut outs, &mut refused, &mut findings);
+        if hash_str(&show(p), 9) % 3 == 0 {
+            compile_ctx::<Legacy>(fix, p, &conc, "Legacy", &mut outs, &mut refused, &mut findings);
+        }
+        if hash_str(&show(p), 9) % 7 == 0 {
+            compile_ctx::<BareCtx>(fix, p, &conc, "Bare", &mut outs, &mut refused, &mut findings);
+        }
+        // taproot descriptor: internal key OR leaves
+        if let Ok(Descriptor::Tr(tr)) = conc.compile_tr(Some(fix.internal.clone())) {
+            let (mut k, mut h, mut a, mut r) = (vec![], vec![], vec![], vec![]);
+            atoms(p, &mut k, &mut h, &mut a, &mut r);
+            let nkeys = k.iter().max().map(|m| *m as usize + 1).unwrap_or(0);
+            let nh = h.iter().max().map(|m| *m as usize + 1).unwrap_or(0);
+            let hashkinds = vec![crate::vm::H_SHA256; nh];
+            let internal = fix.key_id(tr.internal_key()).map(|i| i as i32).unwrap_or(-1);
+            let mut leaf_ids = vec![];
+            let mut ok = true;
+            for leaf in tr.leaves() {
+                match shape_from_ms::<Tap>(fix, leaf.miniscript(), nkeys, &hashkinds, a.clone(), r.clone(), PALETTES[0], true) {
+                    Ok(mut g) => {
+                        g.policy.clear();
+                        policy_lock_array(p, &mut g.policy);
+                        g.liftable = true;
+                        leaf_ids.push(outs.len());
+                        outs.push(Out { name: format!("{} --tr leaf--> {}", show(p), leaf.miniscript()), ctx_name: "TrLeaf", g });
+                    }
+                    Err(e) => {
+                        findings.push(format!("compile_tr({}): leaf artefacts cannot be built: {}", show(p), e));
+                        ok = false;
+                    }
+                }
+            }
+            if ok && !leaf_ids.is_empty() && leaf_ids.len() <= 4 {
+                tr_cases.push((format!("{} --compile_tr--> {}", show(p), tr), internal, leaf_ids));
+            }
+        }
+    }
+    let mut src = String::from(PRELUDE);
+    src.push_str("use crate::c08::TrCase;\n");
+    for (i, o) in outs.iter().enumerate() {
+        emit_shape(&mut src, &format!("SH{i}"), &o.g);
+    }
+    for (i, (name, internal, leaves)) in tr_cases.iter().enumerate() {
+        let _ = writeln!(src, "pub static TR{i}: TrCase = TrCase{{name:{:?},internal:{},leaves:&[{}]}};", name, internal, leaves.iter().map(|l| format!("&SH{l}")).collect::<Vec<_>>().join(","));
+    }
+    // wrappers: semantics + sanity per compiled miniscript, non-malleability, taproot cases
+    let ms_ids: Vec<usize> = (0..outs.len()).filter(|i| outs[*i].ctx_name != "TrLeaf").collect();
+    let unwind_of = |ids: &[usize]| ids.iter().map(|i| outs[*i].g.ops.len().max(outs[*i].g.wits.len()).max(outs[*i].g.policy.len()).max(outs[*i].g.lockvecs.len())).max().unwrap_or(12).max(12) + 2;
+    for (bi, chunk) in ms_ids.chunks(4).enumerate() {
+        let _ = writeln!(src, "// @h c08_sem_{bi:03} kind=V programs={} timeout=1800 mem=4 covers=any", chunk.len());
+        let _ = writeln!(src, "#[cfg_attr(kani, kani::proof)]\n#[cfg_attr(kani, kani::unwind({}))]\npub fn c08_sem_{bi:03}() {{", unwind_of(chunk));
+        for i in chunk {
+            let _ = writeln!(src, "    crate::c08::sem(&SH{i}); // {}", outs[*i].name);
+        }
+        let _ = writeln!(src, "}}");
+    }
+    let nm_ids: Vec<usize> = ms_ids.iter().copied().filter(|i| outs[*i].g.rows.iter().any(|r| outs[*i].g.wits[r.w[0]].kind == 0)).collect();
+    for (bi, chunk) in nm_ids.chunks(4).enumerate() {
+        let _ = writeln!(src, "// @h c08_nm_{bi:03} kind=W programs={} timeout=1800 mem=4 covers=any", chunk.len());
+        let _ = writeln!(src, "#[cfg_attr(kani, kani::proof)]\n#[cfg_attr(kani, kani::unwind({}))]\npub fn c08_nm_{bi:03}() {{", unwind_of(chunk));
+        for i in chunk {
+            let _ = writeln!(src, "    crate::c08::nm(&SH{i}); // {}", outs[*i].name);
+        }
+        let _ = writeln!(src, "}}");
+    }
+    for (bi, chunk) in (0..tr_cases.len()).collect::<Vec<_>>().chunks(3).enumerate() {
+        let ids: Vec<usize> = chunk.iter().flat_map(|c| tr_cases[*c].2.clone()).collect();
+        let _ = writeln!(src, "// @h c08_tr_{bi:03} kind=V programs={} timeout=1800 mem=4 covers=any", chunk.len());
+        let _ = writeln!(src, "#[cfg_attr(kani, kani::proof)]\n#[cfg_attr(kani, kani::unwind({}))]\npub fn c08_tr_{bi:03}() {{", unwind_of(&ids));
+        for c in chunk {
+            let _ = writeln!(src, "    crate::c08::tr(&TR{c}); // {}", tr_cases[*c].0);
+        }
+        let _ = writeln!(src, "}}");
+    }
+    write_out(out_dir, "c08.rs", &src);
+    let mut samples = vec![];
+    for (i, o) in outs.iter().enumerate() {
+        if i % (outs.len() / 10 + 1) == 0 {
+            samples.push(format!("{{\"compiled\": \"{}\", \"script_hex\": \"{}\", \"rows\": {}}}", json_escape(&o.name), o.g.script_hex, o.g.rows.len()));
+        }
+    }
+    let info = format!(
+        "{{\"programs\": {}, \"policies\": {}, \"compilations_refused\": {}, \"taproot_descriptors\": {}, \"samples\": [{}], \"native_findings\": [{}]}}",
+        outs.len(),
+        pols.len(),
+        refused,
+        tr_cases.len(),
+        samples.join(","),
+        findings.iter().map(|f| format!("{{\"prop\": \"C08\", \"what\": \"{}\"}}", json_escape(f))).collect::<Vec<_>>().join(",")
+    );
+    write_out(out_dir, "c08_info.json", &info);
+    let modp = format!("{out_dir}/mod.rs");
+    let cur = std::fs::read_to_string(&modp).unwrap_or_default();
+    if !cur.contains("pub mod c08;") {
+        std::fs::write(&modp, format!("{}pub mod c08;\n", if cur.is_empty() { "// generated - do not edit\n".to_string() } else { cur })).unwrap();
+    }
+    println!("generated {} compiled outputs from {} policies ({} refused, {} tr descriptors, {} native findings)", outs.len(), pols.len(), refused, tr_cases.len(), findings.len());
+}
